@@ -60,6 +60,17 @@ class Roles(object):
             inl = m.flat("%s.%s" % (R, n), depth=3).fn()
             if not has_strf:
                 has_strf = any(isinstance(c.func, ast.Attribute) and c.func.attr == "strftime" for c in _calls(inl, lambda c: True))
+            if not has_fmt:
+                # the format may sit in a module-level helper shared with the writer (inlined in the flat view)
+                only_mod = m.flat("%s.%s" % (R, n), keep=tuple(rm), depth=2).fn()        # methods of the class stay calls
+                for x in ast.walk(only_mod):
+                    if isinstance(x, ast.BinOp) and isinstance(x.op, ast.Mod):
+                        try:
+                            v = x.left.value if isinstance(x.left, ast.Constant) else fold.expr("digital_metadata", x.left)
+                        except AnalysisError:
+                            v = None
+                        if isinstance(v, str) and "@" in v:
+                            has_fmt = True
             if has_fmt and has_strf:
                 fl.append(n)
         if len(fl) != 1:
